@@ -148,6 +148,13 @@ Proof.
            p le Hc f Hctl Hsb Hsi (new_ssink script) eq_refl eq_refl eq_refl).
 Qed.
 
+Theorem seq_writer_results_agree script :
+  let r := seq_writer_run p le f script in gr_write r = gr_flush r.
+Proof.
+  exact (gwriter_results_agree ssink ssink_write ss_got ss_bad never_late ssink_ok ssink_bad ssink_fuel ssink_inv
+           p le Hc f Hctl Hsb Hsi (new_ssink script) eq_refl eq_refl eq_refl).
+Qed.
+
 Theorem seq_writer_healthy :
   let r := seq_writer_run p le f [] in
   gr_write r = None /\ gr_flush r = None /\ ss_got (gr_sink r) = sfull_output le f.
@@ -552,6 +559,40 @@ Proof.
   - destruct IH as [IH|(pre & r & post & t & -> & Hp & Ht)].
     + left. cbn [plain forallb]. rewrite Ea. exact IH.
     + right. exists (a :: pre), r, post, t. repeat split; [|exact Ht]. cbn [plain forallb]. rewrite Ea. exact Hp.
+Qed.
+
+(* the converse: Read reports no error only if the source had no event at all, or its
+   first event is io.EOF, or io.ErrUnexpectedEOF inside the preview, or sits at the
+   preview boundary *)
+Definition at_boundary (pre : list rresp) (r : rresp) : Prop :=
+  blen (data_of pre) < preview_size /\ blen (data_of pre) + blen (rr_data r) = preview_size.
+
+Theorem reader_seq_parsed_only_if p m rs d :
+  rpolicy3_ok p = true -> fst (reader_seq p m rs) = QParsed d ->
+  (plain rs = true /\ d = data_of rs) \/
+  exists pre r post t, rs = pre ++ r :: post /\ plain pre = true /\ rr_term r = Some t /\
+    (at_boundary pre r \/
+     (d = data_of pre ++ rr_data r /\
+      (t = TEOF \/ (t = TErr RUnexpectedEOF /\ blen (data_of pre) + blen (rr_data r) < preview_size)))).
+Proof.
+  intros Hp Hq. destruct (first_event rs) as [Hpl|(pre & r & post & t & -> & Hpre & Ht)].
+  - left. split; [exact Hpl|]. rewrite (reader_seq_plain p m Hp rs Hpl) in Hq. cbn [fst] in Hq.
+    unfold scan_spec in Hq. destruct (too_long m (data_of rs)); [discriminate|]. now injection Hq as <-.
+  - right. exists pre, r, post, t. split; [reflexivity|]. split; [exact Hpre|]. split; [exact Ht|].
+    destruct (N.lt_ge_cases (blen (data_of pre) + blen (rr_data r)) preview_size) as [Hs|Hs].
+    + right. rewrite (reader_seq_short p m Hp pre post r t Hpre Ht Hs) in Hq. cbn [fst] in Hq.
+      destruct t as [|[|]]; try discriminate;
+        unfold scan_spec in Hq; destruct (too_long m _); try discriminate; injection Hq as <-.
+      * split; [reflexivity|now left].
+      * split; [reflexivity|right; now split].
+    + destruct (N.lt_ge_cases (blen (data_of pre)) preview_size) as [Hn|Hn].
+      * destruct (N.eq_dec (blen (data_of pre) + blen (rr_data r)) preview_size) as [Hb|Hb]; [left; now split|].
+        right. rewrite (reader_seq_stream p m Hp pre post r t Hpre Ht ltac:(lia)) in Hq. cbn [fst] in Hq.
+        unfold scan_spec in Hq. destruct (too_long m _); [discriminate|]. destruct t; [|discriminate].
+        injection Hq as <-. split; [reflexivity|now left].
+      * right. rewrite (reader_seq_stream p m Hp pre post r t Hpre Ht ltac:(lia)) in Hq. cbn [fst] in Hq.
+        unfold scan_spec in Hq. destruct (too_long m _); [discriminate|]. destruct t; [|discriminate].
+        injection Hq as <-. split; [reflexivity|now left].
 Qed.
 
 (* a nil error is never returned for data holding more than maxLines lines *)
